@@ -163,6 +163,20 @@ class TargetOrLimit(GlobalStopCondition):
         return bool(good) or tree.metaepoch_count >= self.limit
 
 
+class DemeTargetOrLimit(LocalStopCondition):
+    """A user-defined local condition: the deme is good enough (its current best reaches a target) or has run long enough.
+    It reads the deme's accessors (current best, overall best, centroid, evaluation count) when it is consulted."""
+
+    def __init__(self, target, limit, maximize):
+        self.target, self.limit, self.maximize = target, limit, maximize
+
+    def __call__(self, deme) -> bool:
+        cur, best = deme.best_current_individual, deme.best_individual
+        _ = (deme.centroid, deme.n_evaluations)
+        good = cur is not None and best is not None and (cur.fitness >= self.target if self.maximize else cur.fitness <= self.target)
+        return bool(good) or deme.metaepoch_count >= self.limit
+
+
 class DepthFirstBest(SproutCandidatesGenerator):
     """A user-written generator: the current best of every active non-leaf deme, like BestPerDeme, but handed over in
     depth-first order (parent, then its subtree) instead of level by level."""
@@ -252,6 +266,9 @@ def _lsc(spec, rec, level, script):
         inner = AllChildrenStopped()
     elif k == "FitnessSteadiness":
         inner = FitnessSteadiness(float(spec.get("dev", 1e-3)), int(spec.get("n", 3)))
+    elif k == "DemeTarget":
+        t = float(spec.get("target", 0.05))
+        inner = DemeTargetOrLimit(-t if rec.maximize else t, int(spec.get("n", 4)), rec.maximize)
     elif k == "Scripted":
         inner = ScriptedLSC([s for s in script.get("lsc", []) if s[2] == level] if script else [])
     else:
@@ -488,6 +505,8 @@ def build(spec: dict):
     options = {"log_level": "warning", "hibernation": bool(spec.get("hibernation", False))}
     if spec.get("seed") is not None:
         options["random_seed"] = int(spec["seed"])
+    if spec.get("bare_options") and not spec.get("hibernation"):
+        options = {"random_seed": int(spec["seed"])}       # an options dict without the optional keys
     if any(lv["engine"] in ("CUSTOM", "DOC") for lv in spec["levels"]):
         cfg = TreeConfig(levels, gsc, sm, options=options,
                          config_class_to_deme_class={CustomLevelConfig: CustomDeme, DocStyleConfig: DocStyleDeme})
